@@ -264,9 +264,19 @@ def run_lines(binary, args, lines, timeout=900, shards=None):
             done = len(outs)
             if done >= len(todo):
                 break
-            res[todo[done]] = "CRASH"
-            todo = todo[done + 1:]
+            # a watchdog exit ("HANG" is the last line printed) or a crash: the runner is restarted on the
+            # remaining cases, but not for ever - when hangs / crashes pile up (every multi-threaded bench
+            # hangs when, say, the main thread is never unparked) the rest is not run
+            if outs and outs[-1] == "HANG":
+                todo = todo[done:]
+            else:
+                res[todo[done]] = "CRASH"
+                todo = todo[done + 1:]
             restarts += 1
+            if restarts > 6:
+                for i in todo:
+                    res[i] = "NOT-RUN after repeated hangs or crashes of the runner"
+                break
             if restarts > 200:
                 for i in todo:
                     res[i] = "NO-OUTPUT"
